@@ -65,9 +65,11 @@ Record config := {
   many_model : bool;     (* the gate set has a gate on > 2 qudits *)
   nosq_model : bool;     (* NoSingleQuditGatesInModel *)
   has_gen    : bool;     (* HasGeneralSingleQuditGate *)
-  zx_model   : bool;     (* ZXGatePredicate *)
+  zx_model   : bool;     (* ZXGatePredicate, as the LIVE predicate code answers for the model *)
   allconst   : bool;     (* AllConstantSingleQuditGates *)
-  gsn        : bool      (* gate_set.get_general_sq_gate() is itself in the gate set *)
+  gsn        : bool;     (* gate_set.get_general_sq_gate() is itself in the gate set *)
+  zx_native  : bool      (* INDEPENDENT of the predicate code: the gates ZXZXZDecomposition emits for this gate set
+                            (RZ, else U1; SX, else RX) are all in the gate set *)
 }.
 
 Inductive ikind := KCircuit | KUnitary | KState | KStateSystem.
